@@ -57,12 +57,44 @@ theorem c10_device_exact (s : Td.St) (hs : Reg.Sane s.reg) (p : Nat) (hp : s.ali
     (Td.drop Td.Cfg.clean s p).armed = s.armed.filter (·.peer ≠ p) ∧
     (Td.drop Td.Cfg.clean s p).csubs = s.csubs.filter (·.peer ≠ p) ∧
     (Td.drop Td.Cfg.clean s p).cbinds = s.cbinds.filter (·.peer ≠ p) ∧
-    (Td.drop Td.Cfg.clean s p).alive = s.alive.filter (· ≠ p) :=
+    (Td.drop Td.Cfg.clean s p).alive = s.alive.filter (· ≠ p) ∧
+    (Td.drop Td.Cfg.clean s p).tally = s.tally.filter (·.1 ≠ p) :=
   Td.drop_exact s hs p hp
 
 /-- the hypothesis of `c10_device_exact` holds in every state the repaired stack reaches -/
-theorem c10_reachable (s0 : Td.St) (h : Reg.Sane s0.reg) (ops : List Td.Op) : Reg.Sane (Td.run Td.Cfg.clean s0 ops).reg :=
-  Td.run_sane_clean s0 h ops
+theorem c10_reachable (s0 : Td.St) (h : Reg.Sane s0.reg) (hl : Td.EntriesAlive s0) (ops : List Td.Op) :
+    Reg.Sane (Td.run Td.Cfg.clean s0 ops).reg :=
+  Td.run_sane_clean s0 h hl ops
+
+/-- non-vacuity: the example start state (empty registries) meets both hypotheses -/
+example : Reg.Sane s0.reg ∧ Td.EntriesAlive s0 := ⟨⟨by simp [s0], by simp [s0]⟩, ⟨by simp [s0], by simp [s0]⟩⟩
+
+/-- Repaired code: when the removed SKI connects again, nothing of the old connection is there — no subscription,
+    binding, pending approval, timer, approval tally or client-side bookkeeping refers to it; the new connection starts
+    from scratch ("teardown never leaks into the next connection"). -/
+theorem c10_reconnect_fresh (s : Td.St) (hs : Reg.Sane s.reg) (p : Nat) (hp : s.alive.contains p = true) :
+    Reg.subsOf (Td.reconnect (Td.drop Td.Cfg.clean s p) p).reg p = [] ∧
+    Reg.bindsOf (Td.reconnect (Td.drop Td.Cfg.clean s p) p).reg p = [] ∧
+    (Td.reconnect (Td.drop Td.Cfg.clean s p) p).pend.filter (·.peer = p) = [] ∧
+    (Td.reconnect (Td.drop Td.Cfg.clean s p) p).armed.filter (·.peer = p) = [] ∧
+    (Td.reconnect (Td.drop Td.Cfg.clean s p) p).tally.filter (·.1 = p) = [] ∧
+    (Td.reconnect (Td.drop Td.Cfg.clean s p) p).csubs.filter (·.peer = p) = [] ∧
+    (Td.reconnect (Td.drop Td.Cfg.clean s p) p).cbinds.filter (·.peer = p) = [] ∧
+    (Td.reconnect (Td.drop Td.Cfg.clean s p) p).alive.contains p = true :=
+  Td.reconnect_fresh s hs p hp
+
+/-- The member that keeps the approval tallies of a removed connection (no committed tree is this member; the harness
+    probes for it): feature [1]/1 has two approval callbacks; write 7 of the first connection gets one approval and
+    times out; the connection is removed and comes back; its new write 7 (counters restart per connection) is applied
+    after ONE approval — in the repaired member the same verdict has no effect yet. -/
+theorem c10_tally_inherited_refuted :
+    let c : Td.Cfg := { reg := Reg.Cfg.clean, timersSurvive := false, entityKeepsApprovals := false, tallySurvivesDrop := true }
+    let s := Td.run c Td.w2 [.reg (.bind 1 [1] 1 [1] 1 1), .write 1 [1] 1 [1] 1 7 true, .verdict 1 7 true, .fire, .drop 1,
+      .reconnect 1, .reg (.bind 1 [1] 1 [1] 1 1), .write 1 [1] 1 [1] 1 7 true]
+    (Td.verdict s 1 7 true).2 = "applied" ∧
+    (Td.verdict (Td.run Td.Cfg.clean Td.w2 [.reg (.bind 1 [1] 1 [1] 1 1), .write 1 [1] 1 [1] 1 7 true, .verdict 1 7 true, .fire,
+      .drop 1, .reconnect 1, .reg (.bind 1 [1] 1 [1] 1 1), .write 1 [1] 1 [1] 1 7 true]) 1 7 true).2 = "-" :=
+  Td.tally_inherited_witness
 
 /-- non-vacuity: the example history, then peer 1 dropped — peer 2's identical entries all survive -/
 example :
